@@ -115,6 +115,7 @@ class Forest:
         self.strtab = {}                     # .debug_str
         self.line_strtab = {}
         self.abbrev_tables = {}              # table id -> {key: code}; filled by layout
+        self.abbrev_decl_seed = None         # int: declare the abbreviations of each table in a shuffled order
 
     def all_dies(self):
         for u in self.units:
@@ -177,7 +178,12 @@ class Writer:
         self.table_offsets = {}
         for tid, tab in tables.items():
             self.table_offsets[tid] = len(data)
-            for (tag, ch, forms), code in tab.items():
+            items = list(tab.items())
+            if getattr(self.f, "abbrev_decl_seed", None) is not None:
+                # declarations need not come in ascending code order
+                import random as _random
+                _random.Random(self.f.abbrev_decl_seed).shuffle(items)
+            for (tag, ch, forms), code in items:
                 data += uleb(code) + uleb(tag) + bytes([1 if ch else 0])
                 for at, fc, ic in forms:
                     data += uleb(at) + uleb(fc)
